@@ -193,9 +193,12 @@ func (s *Settings) merge(other *Settings) {
 				setUnexportedField(sField, otherFieldValue)
 			}
 		} else {
+			// Slices follow the same rule as pointers: an absent value does not
+			// override one that an earlier source supplied.
 			otherFieldValue := getUnexportedField(otherField)
-			setUnexportedField(sField, otherFieldValue)
-
+			if !isNilish(otherFieldValue) {
+				setUnexportedField(sField, otherFieldValue)
+			}
 		}
 	}
 }
